@@ -291,6 +291,8 @@ class C05Monitor(Monitor):
         if pid == 0:
             code = 0
             try:
+                from sim.common import die_with_parent
+                die_with_parent()
                 os.chdir(snap)
                 code = _loader_main(st.workers, msgfile)
             except BaseException as exc:  # noqa
